@@ -151,9 +151,13 @@ def evaluate_contexts(ck, cases, on_fail, count=True):
                     on_fail(c, got)
             continue
         for ci_, (c, r) in enumerate(zip(ch, nres["results"])):
-            if ci_ in rejected:
-                # the parser refused this spelling with an Error diagnostic: it denotes nothing
+            if ci_ in rejected and str(c[2]).startswith("js-"):
+                # the expression grammar refused this escape spelling (surrogate pairs) with an Error diagnostic: it denotes nothing
                 ck.extra["spellings_not_accepted"] = ck.extra.get("spellings_not_accepted", 0) + 1
+                continue
+            if ci_ in rejected:
+                # a character reference / raw character of WXML text refused with an Error: the constant never arrives
+                on_fail(c, "(refused by the parser with an Error diagnostic)")
                 continue
             ck.evaluations += 1
             ck.traces += 1
